@@ -23,3 +23,5 @@ def H(name, common=None, quick=None, thorough=None):
 
 prop("C01", [H("K2_uvarint_rt"), H("K2_uvarint_agree"), H("K3_freqHasLocs"), H("K4_1hit")],
      explanation="kernel layer only so far")
+
+prop("C08", [H("H08_dict", common={"param": "provs=4"}, quick={"wall": "100s", "shards": 8})])
